@@ -107,6 +107,9 @@ def cmp_c12(case, got):
     chk("unmatched file", e["plain"], got["plain"], "plain|" + case["opt"])
     chk("probe of explicit option --%s" % case["opt"], e["explicit"], got["explicit"],
         "explicit:%s|%s" % (case["opt"], flags))
+    for src, want in (e.get("outside") or {}).items():
+        chk("probe of %s in a watched directory outside the project origin" % src, want, (got.get("outside") or {}).get(src),
+            "outside:%s|%s|%s" % (src, case["opt"], flags))
     chk("create event", e["create"], got["create"], "create|" + case["opt"])
     chk("modify event", e["modify"], got["modify"], "modify|" + case["opt"])
     return bad
@@ -237,7 +240,11 @@ def cmp_c18(case, got):
     if not got["cwd_ok"]:
         bad.append(("the working directory set by the spawn hook is not the child's", "cwd"))
     if not got["env_ok"]:
-        bad.append(("the environment variable set by the spawn hook did not reach the child intact", "env"))
+        bad.append(("the environment variable set by the spawn hook did not reach the child intact"
+                    + (" (--emit-events-to=%s)" % case["emit"] if case.get("emit", "default") != "default" else ""), "env"))
+    if case["cmd"]["kind"] == "cli" and got.get("events_file") is not None and got["events_file"] != case.get("events_file", False):
+        bad.append(("--emit-events-to=%s: WATCHEXEC_EVENTS_FILE %s in the command's environment" %
+                    (case.get("emit"), "is" if got["events_file"] else "is not"), "events_file"))
     return bad
 
 
